@@ -132,8 +132,13 @@ def main():
         need(r'binary\.BigEndian\.PutUint64\(buf\[:\],\s*vv\)', case_i, 'int64 big endian')
         case_u = need(r'case uint64:(.*?)case int64:', tb, 'uint64 case').group(1)
         need(r'binary\.BigEndian\.PutUint64\(buf\[:\],\s*v\)', case_u, 'uint64 big endian')
+        if re.sub(r'\s+', '', case_u) != 'varbuf[8]bytebinary.BigEndian.PutUint64(buf[:],v)returnbuf[:],nil':
+            raise Shape('uint64 case of toByteSortable has an unexpected shape')
+        if re.sub(r'\s+', '', case_i) != 'varbuf[8]bytevv:=uint64(v^math.MinInt64)binary.BigEndian.PutUint64(buf[:],vv)returnbuf[:],nil':
+            raise Shape('int64 case of toByteSortable has an unexpected shape')
         case_s = need(r'case string:(.*?)case uint64:', tb, 'string case').group(1)
-        need(r'return\s+\[\]byte\(v\),\s*nil', case_s, 'string identity')
+        if re.sub(r'\s+', '', case_s) != 'return[]byte(v),nil':
+            raise Shape('string case of toByteSortable is not the identity `return []byte(v), nil`')
         case_f = need(r'case float64:(.*?)return nil, fmt\.Errorf', tb, 'float64 case').group(1)
         # zero normalisation present?
         norm = bool(re.search(r'if\s+v\s*==\s*0\s*\{\s*v\s*=\s*0\s*\}', case_f))
